@@ -10,7 +10,7 @@ cp /repo/go.sum harness/go.sum
 T=$(mktemp -d)
 cp spec/*.tla "$T"/
 for f in "$T"/*.tla; do
-  case "$f" in */ClipProof.tla) continue;; esac      # a TLAPS proof module: checked by tlapm (check C03), its library modules are not on SANY's path
+  case "$f" in */ClipProof.tla|*/AllocApa.tla) continue;; esac      # a TLAPS proof module (tlapm, check C03) and an Apalache module (apalache-mc, check C11): their library modules are not on SANY's path
   (cd "$T" && tla-sany "$(basename "$f")" >/dev/null 2>&1) || { echo "SANY failed on $f"; (cd "$T" && tla-sany "$(basename "$f")" | tail -5); rm -rf "$T"; exit 1; }
 done
 rm -rf "$T"
